@@ -562,8 +562,10 @@ func runProgram(p Program) *pbt.Result {
 		return pbt.Fail("Size()=%d but ToByteArray() has %d bytes", o.Size(), len(got))
 	}
 	in := wio.NewDataInputX(append([]byte(nil), got...))
+	// byte strings read from the in-memory stream are kept as well and looked at again after the last read (seed C01-s24)
+	var heldMem []heldBytes
 	for i, op := range p.Ops {
-		if err := golibRead(in, op); err != nil {
+		if err := golibReadHold(in, op, &heldMem, i); err != nil {
 			return &pbt.Result{Err: fmt.Errorf("op %d: %v", i, err)}
 		}
 		if want := int32(len(got) - ends[i]); in.Available() != want {
@@ -572,6 +574,11 @@ func runProgram(p Program) *pbt.Result {
 	}
 	if in.Available() != 0 {
 		return pbt.Fail("Available()=%d after the last read", in.Available())
+	}
+	for _, h := range heldMem {
+		if !bytes.Equal(h.got, h.want) {
+			return pbt.Fail("the %d bytes returned for op %d (%s) no longer equal what was written once the rest of the stream had been read (%.24x… vs %.24x…)", len(h.want), h.i, h.kind, h.got, h.want)
+		}
 	}
 	// the same stream received from a connection, in segments; byte strings are kept until everything has been read
 	// (a receiver decodes a whole message before it looks at the parts)
